@@ -4,6 +4,7 @@ package rules
 import (
 	"fmt"
 	"sort"
+	"strings"
 
 	"gzverify/load"
 	"gzverify/rep"
@@ -20,55 +21,95 @@ type propDef struct {
 	level string
 	run   func(c *Ctx)
 	load  func(tier string) (*load.Prog, error)
+	// loadWith loads with extra environment / overlay (thorough tier, self-test)
+	loadWith func(env []string, overlay map[string][]byte) (*load.Prog, error)
 }
 
 var props = map[string]*propDef{}
 
 func register(id, level string, run func(c *Ctx)) { props[id] = &propDef{level: level, run: run} }
 
-func Run(id, tier string, verbose bool, only string) int {
-	d, ok := props[id]
-	if !ok {
-		var ids []string
-		for k := range props {
-			ids = append(ids, k)
-		}
-		sort.Strings(ids)
-		fmt.Printf("unknown or unclaimed property %q (have %v)\n", id, ids)
-		return 2
+// Props lists the registered property ids.
+func Props() []string {
+	var ids []string
+	for k := range props {
+		ids = append(ids, k)
 	}
-	r := rep.New(id, tier, d.level)
-	r.Checker = fmt.Sprintf("bin/gzverify -prop %s -tier %s", id, tier)
-	r.Trusted = []string{"go/types type checker", "golang.org/x/tools/go/ssa v0.29.0 SSA construction", "px path engine: defer/panic/recover model, abstract store (nil/bool/const facts)", "documented semantics of the standard-library and third-party calls named in the rules"}
-	var p *load.Prog
-	var err error
-	if d.load != nil {
-		p, err = d.load(tier)
-	} else {
-		p, err = load.Load(load.Options{})
+	sort.Strings(ids)
+	return ids
+}
+
+func (d *propDef) doLoad(tier string, env []string, overlay map[string][]byte) (*load.Prog, error) {
+	if d.loadWith != nil {
+		return d.loadWith(env, overlay)
 	}
+	if d.load != nil && len(env) == 0 && overlay == nil {
+		return d.load(tier)
+	}
+	return load.Load(load.Options{Env: env, Overlay: overlay})
+}
+
+// thoroughConfigs: additional build configurations analysed by the thorough tier, so that
+// build-tagged siblings of the anchored files are covered too.
+var thoroughConfigs = [][]string{{"GOOS=darwin"}, {"GOOS=windows"}, {"GOARCH=386"}}
+
+// runOnce loads one configuration and runs the rules into r. label "" = host configuration.
+func runOnce(id string, d *propDef, r *rep.Report, tier string, env []string, overlay map[string][]byte, label string) {
+	before := len(r.Obs)
+	p, err := d.doLoad(tier, env, overlay)
 	if err != nil {
-		r.Undecided(id+".load", "go/packages", "the module loads", err.Error())
-		return r.Finish(verbose)
+		r.Undecided(id+".load", "go/packages"+label, "the module loads", err.Error())
+		return
 	}
 	if len(p.Errors) > 0 {
 		n := len(p.Errors)
 		if n > 5 {
 			n = 5
 		}
-		r.Undecided(id+".load", "type-check", "analysed packages type-check", fmt.Sprintf("%d errors, first: %v", len(p.Errors), p.Errors[:n]))
-		return r.Finish(verbose)
+		r.Undecided(id+".load", "type-check"+label, "analysed packages type-check", fmt.Sprintf("%d errors, first: %v", len(p.Errors), p.Errors[:n]))
+		return
 	}
-	r.Extra["packages_loaded"] = len(p.Pkgs)
-	r.Extra["config"] = p.Config
+	if label == "" {
+		r.Extra["packages_loaded"] = len(p.Pkgs)
+		r.Extra["config"] = p.Config
+	}
 	c := &Ctx{P: p, R: r, Tier: tier}
 	func() {
 		defer func() {
 			if e := recover(); e != nil {
-				r.Undecided(id+".internal", "checker", "the checker completes", fmt.Sprintf("internal panic: %v", e))
+				r.Undecided(id+".internal", "checker"+label, "the checker completes", fmt.Sprintf("internal panic: %v", e))
 			}
 		}()
 		d.run(c)
 	}()
+	if label != "" {
+		for _, o := range r.Obs[before:] {
+			o.ID = o.Rule + ":" + o.Construct + label
+			o.Config = strings.TrimPrefix(label, "@")
+		}
+	}
+}
+
+func Run(id, tier string, verbose bool, only string) int {
+	d, ok := props[id]
+	if !ok {
+		fmt.Printf("unknown or unclaimed property %q (have %v)\n", id, Props())
+		return 2
+	}
+	r := rep.New(id, tier, d.level)
+	r.Checker = fmt.Sprintf("bin/gzverify -prop %s -tier %s", id, tier)
+	r.Trusted = []string{"go/types type checker", "golang.org/x/tools/go/ssa v0.29.0 SSA construction", "px path engine: defer/panic/recover model, abstract store (nil/bool/const facts)", "documented semantics of the standard-library and third-party calls named in the rules"}
+	runOnce(id, d, r, tier, nil, nil, "")
+	if tier == "thorough" {
+		var cfgs []string
+		for _, env := range thoroughConfigs {
+			label := "@" + strings.Join(env, ",")
+			runOnce(id, d, r, tier, env, nil, label)
+			cfgs = append(cfgs, strings.Join(env, ","))
+		}
+		r.Extra["configs"] = append([]string{"host"}, cfgs...)
+		st := SelfTest(id, false)
+		r.Extra["selftest"] = st
+	}
 	return r.Finish(verbose)
 }
